@@ -34,7 +34,7 @@ def is_12(vers_text):
 
 def swapped(sec_kind, mnemonic, v12):
     """On disk, LAS 1.2 ~W lines other than STRT/STOP/STEP/NULL carry DESCR before the colon."""
-    return v12 and sec_kind == "W" and mnemonic not in W12_VALUE_FIRST
+    return v12 and sec_kind == "W" and mnemonic.upper() not in W12_VALUE_FIRST  # in any letter case (Strt, Null)
 
 
 def render_item(ln, sec_kind, v12):
